@@ -94,8 +94,9 @@ structure AllOn (py : Cfg) : Prop where
   dupKwCheck : py.dupKwCheck = true
   listTarget : py.listTarget = true
   uaddApplies : py.uaddApplies = true
+  kwGroupMerge : py.kwGroupMerge = true
 
-theorem allOn_python : AllOn Cfg.python := ⟨rfl, rfl, rfl, rfl, rfl, rfl, rfl, rfl, rfl⟩
+theorem allOn_python : AllOn Cfg.python := ⟨rfl, rfl, rfl, rfl, rfl, rfl, rfl, rfl, rfl, rfl⟩
 
 /-! ### constant operand lists evaluate without any effect -/
 
@@ -185,7 +186,7 @@ include hp
 /-- hypothesis under which keyword merging agrees: either the duplicate check is in place, or all keywords are
 explicit, pairwise distinct and not yet present -/
 def KwOk (acc : List (String × Val)) (ks : List Kw) : Prop :=
-  cfg.dupKwCheck = true ∨ (ks.all Kw.isNamed = true ∧ kwDistinct ks = true ∧ ∀ n ∈ kwNames ks, n ∉ keysOf acc)
+  (cfg.dupKwCheck = true ∧ cfg.kwGroupMerge = true) ∨ (ks.all Kw.isNamed = true ∧ kwDistinct ks = true ∧ ∀ n ∈ kwNames ks, n ∉ keysOf acc)
 
 mutual
 theorem eval_eq : ∀ (e : Expr) (σ : Store) (w : W), Conf cfg e = true → eval cfg P e σ w = eval py P e σ w
@@ -281,7 +282,7 @@ theorem eval_eq : ∀ (e : Expr) (σ : Store) (w : W), Conf cfg e = true → eva
     have hkw : ∀ acc, acc = [] → KwOk cfg acc kws := by
       intro acc hacc
       rcases hdup with hd1 | hd2
-      · exact Or.inl hd1
+      · exact Or.inl (by simpa using hd1)
       · exact Or.inr ⟨hd2, hd, by intro n _; simp [hacc, keysOf]⟩
     simp only [eval]
     refine bind_congr (eval_eq f σ w hf) fun fv w => ?_
@@ -401,9 +402,11 @@ theorem evalKws_eq : ∀ (acc : List (String × Val)) (ks : List Kw) (σ : Store
     simp only [evalKws]
     refine bind_congr (eval_eq e σ w h.1) fun a w => ?_
     rcases hok with hd1 | ⟨hn, hd, hf⟩
-    · rw [kwMerge_flag cfg py hd1 hp.dupKwCheck]
+    · rw [kwMerge_flag cfg py hd1.1 hp.dupKwCheck]
       cases kwMerge py acc k a.1 with
-      | error ex => rfl
+      | error ex =>
+        simp only [hd1.2, hp.kwGroupMerge, if_true]
+        exact drainGroup_eq ex ks a.2 w h.2
       | ok acc' => exact evalKws_eq acc' ks a.2 w h.2 (Or.inl hd1)
     · obtain ⟨hnk, hd'⟩ := kwDistinct_cons_named k e ks hd
       have hfresh : k ∉ keysOf acc := hf k (by simp [kwNames])
@@ -419,11 +422,20 @@ theorem evalKws_eq : ∀ (acc : List (String × Val)) (ks : List Kw) (σ : Store
     simp only [evalKws]
     refine bind_congr (eval_eq e σ w h.1) fun a w => bind_congr rfl fun items w => ?_
     rcases hok with hd1 | ⟨hn, _, _⟩
-    · rw [kwMergeAll_flag cfg py hd1 hp.dupKwCheck]
+    · rw [kwMergeAll_flag cfg py hd1.1 hp.dupKwCheck]
       cases kwMergeAll py acc items with
       | error ex => rfl
       | ok acc' => exact evalKws_eq acc' ks a.2 w h.2 (Or.inl hd1)
     · simp [Kw.isNamed] at hn
+
+theorem drainGroup_eq : ∀ (ex : Exc) (ks : List Kw) (σ : Store) (w : W), ConfKws cfg ks = true →
+    drainGroup cfg P ex ks σ w = drainGroup py P ex ks σ w
+  | _, [], _, _, _ => by simp [drainGroup]
+  | ex, .named k e :: ks, σ, w, h => by
+    simp only [ConfKws, Bool.and_eq_true] at h
+    simp only [drainGroup]
+    exact bind_congr (eval_eq e σ w h.1) fun a w => drainGroup_eq ex ks a.2 w h.2
+  | _, .splat e :: ks, _, _, _ => by simp [drainGroup]
 
 theorem evalPairs_eq : ∀ (kvs : List DictArm) (σ : Store) (w : W), ConfPairs cfg kvs = true →
     evalPairs cfg P kvs σ w = evalPairs py P kvs σ w
